@@ -424,7 +424,7 @@ func claimTuple(used progen.Used, sig *progen.Sig) bool {
 		ks = append(ks, k)
 	}
 	match := func(a, b string) bool {
-		return a == b || a == "interface{}" || b == "interface{}"
+		return a == b || a == "interface{}" || b == "interface{}" || a == "any" || b == "any"
 	}
 	for prev := range used {
 		if !strings.HasPrefix(prev, "tuple|") {
